@@ -86,8 +86,10 @@ def static_checks(ctx):
         results.append({"name": "C03.objgraph." + re.sub(r"[^A-Za-z0-9_]+", "_", dm.get(e, e))[:80], "ok": False,
                         "detail": "effects contract violated: " + "  ->  ".join(dmv.get(c, c) for c in chain)})
     for u in sorted(unknown):
-        results.append({"name": "C03.objgraph.unlisted_callee." + re.sub(r"[^A-Za-z0-9_]+", "_", u)[:60], "ok": False,
-                        "detail": "callee %s (%s) is neither defined on the message path nor on the leaf allow-list" % (u, cg.demangle([u]).get(u, u))})
+        # neither known to allocate/lock nor known to be a pure leaf: undecided (exit 2), not a violation
+        results.append({"name": "C03.objgraph.unlisted_callee." + re.sub(r"[^A-Za-z0-9_]+", "_", u)[:60], "ok": None,
+                        "detail": "callee %s (%s) is neither defined on the message path, nor on the forbidden list, nor on the leaf allow-list "
+                                  "(tools/callgraph.py)" % (u, cg.demangle([u]).get(u, u))})
     # ---- goto-binary graph of the C layer
     gb = os.path.join(od, "clayer.gb")
     r = subprocess.run(["goto-cc", "-DNDEBUG", "-D__NO_CTYPE", "-I", os.path.join(ctx.repo, "include"),
@@ -101,7 +103,7 @@ def static_checks(ctx):
     gviol, gunknown, gvisited = cg.check_closure(gedges, gdefined | c_syms, gentries)
     for e, chain in gviol[:20]:
         results.append({"name": "C03.gotograph." + e, "ok": False, "detail": "effects contract violated: " + " -> ".join(chain)})
-    ok_all = not results
+    ok_all = not any(r["ok"] is False for r in results)
     results.append({"name": "C03.effects_contract.closure", "ok": ok_all,
                     "detail": "%d entries (%d C functions, %d port-sugar callback handlers), %d functions under contract in the object graph, "
                               "%d in the goto graph" % (len(entries), len(c_syms), n_lambda, checked, len(gvisited))})
